@@ -39,7 +39,7 @@ RULE = ('message sequences (1-8 messages of all types incl. sysex up to 300 byte
         'functions. Distinct by (stream hash, cut, segmentation); non-trivial when the cut falls '
         'inside or right after a message (cuts at 0 are run and counted as trivial)')
 ASSUMPTIONS = [
-    'the peer disconnects with FIN (close or SIGKILL while the port never sends to it); RST-style deaths are not judged',
+    'the peer disconnects with FIN (close or SIGKILL); one RST shape is judged as well: the local port replies to a peer that has already left and then iterates (data and FIN were received before the RST); other RST-style deaths are not judged',
     'TCP is exercised over 127.0.0.1 only',
     'a blocking server receive() is given real 1 ms sleeps and must return within 300 of them once the clients have sent; poll() / iter_pending() must not sleep at all',
 ]
@@ -403,6 +403,80 @@ def server_case(ctx, seed, nclients, mode):
                 pass
 
 
+def tcp_state(sock):
+    import struct
+    return struct.unpack('B', sock.getsockopt(socket.IPPROTO_TCP, socket.TCP_INFO, 8)[:1])[0]
+
+
+def reply_to_departed_peer_case(ctx, seed):
+    """TCP: the client sends complete messages and leaves (FIN); the accepted port, which has not
+    read yet, sends a reply (the write succeeds, the answer is a RST); then it is iterated."""
+    rng = random.Random(seed)
+    case = lambda: {'kind': 'reply-to-departed', 'seed': seed}  # noqa: E731
+    msgs = rand_msgs(rng, rng.randrange(1, 5))
+    stream, ends = stream_of(msgs)
+    sleeps = Sleeps(limit=300, real=0.001)
+    orig = mido.ports.sleep
+    mido.ports.sleep = sleeps
+    server = client = port = None
+    try:
+        server = PortServer('127.0.0.1', 0)
+        client = connect('127.0.0.1', server._socket.getsockname()[1])
+        port = server.accept()
+        for m in msgs:
+            client.send(m)
+        client.close()
+
+        def wait(cond):
+            t_end = time.time() + 5
+            while time.time() < t_end:
+                if cond():
+                    return True
+                time.sleep(0.002)
+            return False
+
+        def arrived():
+            try:
+                data = port._socket.recv(65536, socket.MSG_PEEK | socket.MSG_DONTWAIT)
+            except BlockingIOError:
+                return False
+            return len(data) == len(stream) and tcp_state(port._socket) == 8      # CLOSE_WAIT
+        if not wait(arrived):
+            ctx.count('reply-to-departed: set-up not reached (not judged)')
+            return
+        try:
+            port.send(Message('note_off', note=1))
+        except OSError:
+            pass
+        if not wait(lambda: tcp_state(port._socket) == 7):                          # CLOSE (RST seen)
+            ctx.count('reply-to-departed: set-up not reached (not judged)')
+            return
+        got = []
+        try:
+            for m in port:
+                got.append(m)
+            ctx.count('iteration ends without exception')
+        except HarnessAbort as exc:
+            ctx.check('iteration ends without exception', False, 'reply-to-departed-never-ends', case, str(exc))
+        except Exception as exc:
+            ctx.check('iteration ends without exception', False, f'reply-to-departed-raised:{type(exc).__name__}',
+                      case, f'{type(exc).__name__}: {exc}')
+        ctx.check('delivered == complete messages before the cut', got == msgs, 'reply-to-departed-differs', case,
+                  lambda: {'got': [m.hex() for m in got], 'want': [m.hex() for m in msgs]})
+        ctx.check('port reports closed after disconnect', port.closed, 'reply-to-departed-not-closed', case, None)
+    except Exception as exc:
+        ctx.fail('iteration ends without exception', f'reply-to-departed:{type(exc).__name__}', case,
+                 f'{type(exc).__name__}: {exc}')
+    finally:
+        mido.ports.sleep = orig
+        for p in (port, client, server):
+            try:
+                if p is not None:
+                    p.close()
+            except Exception:
+                pass
+
+
 HOSTS = ['', 'localhost', '127.0.0.1', 'a.b-c', 'example.org', '0.0.0.0', 'host_name', 'x']
 
 
@@ -470,6 +544,10 @@ def run(ctx):
         server_case(ctx, f'{ctx.seed}:{ctx.shard}:s{j}', 1 + (j + ctx.shard) % 3, modes[(j + ctx.shard) % 3])
         ctx.nontrivial(('server', ctx.seed, ctx.shard, j))
         n += 1
+    for j in range(2 if ctx.tier == 'quick' else 25):
+        reply_to_departed_peer_case(ctx, f'{ctx.seed}:{ctx.shard}:d{j}')
+        ctx.nontrivial(('departed', ctx.seed, ctx.shard, j))
+        n += 1
     k = address_cases(ctx, ctx.shard, ctx.nshards)
     ctx.nontrivial(None, k)
     ctx.extra('address_pairs', k)
@@ -488,6 +566,8 @@ def replay(ctx, case):
         thread_peer_case(ctx, case['seed'])
     elif k == 'killed-peer':
         killed_peer_case(ctx, case['seed'])
+    elif k == 'reply-to-departed':
+        reply_to_departed_peer_case(ctx, case['seed'])
     elif k == 'server':
         server_case(ctx, case['seed'], case['clients'], case['mode'])
     else:
